@@ -100,7 +100,7 @@ AddAtom(s, at) ==
      THEN IF s.prev = 0 /\ (s.pb # 0 \/ s.pd # 0) THEN Reject(s)
           ELSE [s1 EXCEPT !.prev = n, !.dot = FALSE, !.justopen = FALSE, !.nbr[n] = hTok]
      ELSE LET ord == IF s.pb # 0 THEN s.pb ELSE IF s.pd # 0 THEN ImplicitOrd(s1, s.prev, n) ELSE ImplicitOrd(s1, s.prev, n)
-          IN [s1 EXCEPT !.bonds = Append(@, <<s.prev, n, ord, s.pd>>),
+          IN [s1 EXCEPT !.bonds = Append(@, <<s.prev, n, ord, s.pd, 0>>),
                         !.nbr[s.prev] = Append(@, n), !.nbr[n] = <<s.prev>> \o hTok,
                         !.prev = n, !.pb = 0, !.pd = 0, !.justopen = FALSE]
 
@@ -121,7 +121,7 @@ Closure(s, num) ==
              ord == IF ord0 # 0 THEN ord0 ELSE ImplicitOrd(s, a, b)
              dup == \E k \in 1..Len(s.bonds) : {s.bonds[k][1], s.bonds[k][2]} = {a, b}
          IN IF a = b \/ dup \/ ~ordOk THEN Reject(s)
-            ELSE [s EXCEPT !.bonds = Append(@, IF o.dir # 0 THEN <<a, b, ord, o.dir>> ELSE IF s.pd # 0 THEN <<b, a, ord, s.pd>> ELSE <<a, b, ord, 0>>),
+            ELSE [s EXCEPT !.bonds = Append(@, IF o.dir # 0 THEN <<a, b, ord, o.dir, 1>> ELSE IF s.pd # 0 THEN <<b, a, ord, s.pd, 1>> ELSE <<a, b, ord, 0, 1>>),
                            !.nbr[a][o.slot] = b, !.nbr[b] = Append(@, a),
                            !.open = SubSeq(@, 1, i - 1) \o SubSeq(@, i + 1, Len(@)),
                            !.pb = 0, !.pd = 0]
@@ -203,6 +203,8 @@ UpAt(s, a, b, x) == IF HasDir(s, a, x) THEN Up(s, a, x)
                     ELSE LET y == CHOOSE z \in Subst(s, a, b) : HasDir(s, a, z) IN ~Up(s, a, y)
 CisDefined(s, a, b) == DirKnown(s, a, b) /\ DirKnown(s, b, a)
 Cis(s, a, b, x, y) == UpAt(s, a, b, x) = UpAt(s, b, a, y)
+IsClosureBond(s, a, b) == s.bonds[BondIdx(s, a, b)][5] = 1
+IsDouble(s, a, b) == \E k \in 1..Len(s.bonds) : {s.bonds[k][1], s.bonds[k][2]} = {a, b} /\ s.bonds[k][3] = 2
 Read(text) == Finish(RunFrom(Init0, text, 1))
 
 (* ---- atom numbers: an atom with a map keeps it (first use), all others continue from max(map)+1 in text order ---- *)
